@@ -3793,3 +3793,70 @@ def var5(ctx):
     if n < 1:
         raise AnchorMissing("VAR-5: no direction-adjusted copy (`if forwards { .. } else { reversed }`) found in SubRule")
     return r
+
+
+# ---------------------------------------------------------------- PAN-16: a search restarted from its own result makes progress
+
+def pan16(ctx):
+    """SubRule::insertion_between: `'outer: while in_bounds(start) { match insertion_after(bef, word, start) { Some(ins) => {
+    start = ins; .. if the after-context fails { continue 'outer } .. } } }`. The search for the before-context is restarted
+    from its own result. When the before-context can match without consuming anything (an optional), `ins == start`, and
+    the restarted search is the same search: the loop never ends (`* > e / (C)_a` on `kta`). Every path from the
+    re-seeding `start = ins` back to the loop head therefore steps the cursor (SegPos::increment), or passes a comparison
+    of the cursor with another position (the progress test that guards the step)."""
+    from engine_pan import _single_def
+    r = RuleResult("PAN-16", "SubRule::insertion_between: between re-seeding the search cursor from the search's own result and the next round, the cursor is stepped or compared with its previous value on every path", floor=1)
+    lib = ctx.lib
+    b = ctx.fn(lib, "asca::subrule::SubRule::insertion_between")
+    cfg = b.cfg
+    calls = list(b.calls())
+    S = [(i, t) for i, t in calls if (callee_path(t) or "") == "asca::subrule::SubRule::insertion_after"]
+    if not S or not cfg.loops:
+        raise AnchorMissing("PAN-16: insertion_between has no loop around insertion_after any more")
+
+    def resolve(l, hops=0):
+        d = _single_def(b, l)
+        if d is not None and hops < 5:
+            if d.get("k") == "use" and d["op"].get("k") in ("copy", "move") and not d["op"]["pl"]["p"]:
+                return resolve(d["op"]["pl"]["l"], hops + 1)
+            if d.get("k") == "ref" and not d["pl"]["p"]:
+                return d["pl"]["l"]
+        return l
+    si, st = S[0]
+    loops = [(h, set(body)) for h, body in cfg.loops if si in body]
+    if not loops:
+        raise AnchorMissing("PAN-16: the call of insertion_after is not inside a loop")
+    h, body = max(loops, key=lambda x: len(x[1]))
+    # the cursor: the last argument of insertion_after
+    a = st["args"][-1]
+    if a.get("k") not in ("copy", "move"):
+        raise AnchorMissing("PAN-16: insertion_after is not handed a cursor local")
+    C = resolve(a["pl"]["l"])
+    # re-seedings of the cursor inside the loop
+    seeds = []
+    for bi in sorted(body):
+        for s in b.blocks[bi]["s"]:
+            if s["k"] == "assign" and s["lhs"]["l"] == C and not s["lhs"]["p"]:
+                seeds.append((bi, s))
+    steps = set()
+    for i, t in calls:
+        p = callee_path(t) or ""
+        if p == "asca::word::SegPos::increment" and t["args"] and t["args"][0].get("k") in ("copy", "move") and resolve(t["args"][0]["pl"]["l"]) == C:
+            steps.add(i)
+        if p.endswith(("PartialEq>::eq", "PartialEq>::ne", "PartialOrd>::lt", "PartialOrd>::gt", "PartialOrd>::le", "PartialOrd>::ge")) and any(
+                x.get("k") in ("copy", "move") and resolve(x["pl"]["l"]) == C for x in t["args"]):
+            steps.add(i)
+    n = 0
+    for bi, s in seeds:
+        n += 1
+        reach = cfg.reachable_from(bi, avoid=steps)
+        bad = [u for u in reach if u in body and h in cfg.succ[u] and u not in steps]
+        # bi itself may be a step block only if the step follows the assignment; being conservative is fine here
+        ok = not bad
+        r.inst("insertion_between: after `%s = <result of the search>` the cursor is stepped or compared before the next round" % (b.local_name(C) or "cursor"), ":".join((s.get("loc") or b.loc).split(":")[:2]), "ok" if ok else "report")
+        if not ok:
+            r.report("PAN-16|insertion_between|reseed", ":".join((s.get("loc") or b.loc).split(":")[:2]), b.path,
+                     "the search for the before-context is restarted from its own result without any step or progress test: when the before-context matches the empty string (an optional, `(C)`), the result equals the start and the loop repeats the same search forever -- `* > e / (C)_a` on `kta` does not return")
+    if n < 1:
+        raise AnchorMissing("PAN-16: the cursor of insertion_between is never re-seeded inside the loop")
+    return r
